@@ -63,7 +63,8 @@ func main() {
 		}
 		r.OnViol(v)
 	}
-	pool := mc.NewProcPool(0)
+	pool := c20lib.NewPool(0)
+	defer pool.Close()
 	cov := map[string]any{}
 	var totalStates int
 	var totalTrans int64
@@ -71,15 +72,32 @@ func main() {
 	run := func(part, cfg string, depth int, names func(p []int) []string, numOps int, opsFor func(path []int, info string) []int, maxFrontier int) {
 		tag := part + "|" + cfg + "|" + r.Tier
 		t0 := time.Now()
-		st := mc.ReplayBFS(mc.BFSConfig{Tag: tag, NumOps: numOps, MaxDepth: depth, Pool: pool, OnViol: onViol, Stop: r.Expired, OpsFor: opsFor, MaxFrontier: maxFrontier})
-		totalStates += st.States
-		totalTrans += st.Transitions
+		st := mc.ReplayBFS(mc.BFSConfig{Tag: tag, NumOps: numOps, MaxDepth: depth, Workers: pool.N(), Exec: func(path []int) mc.ExecResult { return pool.Exec(tag, path) },
+			OnViol: onViol, Stop: r.Expired, OpsFor: opsFor, MaxFrontier: maxFrontier})
+		// a later, deeper search of the same (part,config) subsumes an earlier one: count it once
+		row := map[string]any{"part": part, "config": cfg, "alphabet": numOps, "depth_bound": depth, "depth_completed": st.DepthDone,
+			"states": st.States, "transitions": st.Transitions, "frontier_per_depth": st.Frontier, "stuttering_or_disabled": st.Disabled, "revisits": st.Revisits,
+			"complete": st.Complete, "wall_s": time.Since(t0).Seconds()}
+		replaced := false
+		for i, old := range tables {
+			if old["part"] == part && old["config"] == cfg {
+				replaced = true
+				if st.States >= old["states"].(int) {
+					totalStates += st.States - old["states"].(int)
+					totalTrans += st.Transitions - old["transitions"].(int64)
+					row["subsumes_earlier_search_to_depth"] = old["depth_completed"]
+					tables[i] = row
+				}
+			}
+		}
+		if !replaced {
+			totalStates += st.States
+			totalTrans += st.Transitions
+			tables = append(tables, row)
+		}
 		if !st.Complete {
 			r.Exhaustive = false
 		}
-		tables = append(tables, map[string]any{"part": part, "config": cfg, "alphabet": numOps, "depth_bound": depth, "depth_completed": st.DepthDone,
-			"states": st.States, "transitions": st.Transitions, "frontier_per_depth": st.Frontier, "stuttering_or_disabled": st.Disabled, "revisits": st.Revisits,
-			"complete": st.Complete, "wall_s": time.Since(t0).Seconds()})
 		for _, p := range st.SamplePaths {
 			r.AddSample(map[string]any{"part": part, "config": cfg, "recipes": names(p)})
 		}
@@ -106,6 +124,8 @@ func main() {
 	cov["distinct_outcome_classes"] = len(oc)
 	cov["wiring"] = c20lib.Wiring
 	cov["not_covered"] = c20lib.NotCovered
+	cov["worker_crashes"] = pool.Crashes
+	pool.Close()
 	r.Finish(cov)
 }
 
